@@ -184,6 +184,36 @@ def main():
                 break
         if not np.array_equal(F, F0):
             chk.violation("extract_percentile_contour modifies the field it is given", sc, klass={"check": "inputs_modified"})
+    # fields whose values do not sum exactly in floating point, at p = 1 (and just below): the contour holds every cell with
+    # a positive value, never more cells than the field has
+    nfloat = 0
+    for k in range(40 if t == "quick" else 400):
+        ny, nx = int(rng.integers(2, 9)), int(rng.integers(2, 9))
+        F = rng.random((ny, nx)) * 10.0 ** rng.integers(-3, 4)
+        if k % 3 == 0:
+            F[rng.random((ny, nx)) < 0.4] = 0.0
+        if F.sum() == 0:
+            continue
+        X, Y = np.meshgrid(np.arange(nx) * 2.0, np.arange(ny) * 3.0)
+        from fractions import Fraction
+        vals = sorted((Fraction(float(v)) for v in F.ravel()), reverse=True)
+        total = sum(vals)
+        for pct in (1.0, 0.999999):
+            lvl, area = extract_percentile_contour(F, (X, Y, np.zeros_like(X)), pct=pct)
+            nfloat += 1
+            acc, kneed = Fraction(0), 0
+            for kneed, v in enumerate(vals, 1):
+                acc += v
+                if acc >= Fraction(pct) * total:
+                    break
+            kgot = area / 6.0
+            # rounding of the running sum may move the threshold by cells of (relative) rounding size only
+            tail = sum(vals[min(int(round(kgot)), kneed):max(int(round(kgot)), kneed)]) if kgot != kneed else Fraction(0)
+            if kgot != round(kgot) or kgot > ny * nx or kgot < 1 or float(tail) > 1e-9 * float(total):
+                chk.violation("field %dx%d (values not exactly summable), p = %r: the contour has %s cells (level %r), the definition needs %d" % (ny, nx, pct, kgot, lvl, kneed),
+                              {"kind": "float_field", "f": F.tolist(), "pct": pct}, klass={"check": "float_contour"})
+                break
+    chk.extra["float_fields"] = nfloat
     chk.extra["large_fields"] = nlarge
     d = common.scratch("trace_sourcearea")
     tf = os.path.join(d, "obs.json")
